@@ -119,6 +119,24 @@ def correspond(ctx, case, script, r, mline, name='Pool.runEvents vs Pool.run'):
     ok = mo == r['outcome'] and menq == r['enq'] and mclosed == r['closed']
     if ok and r['ret'] is not None:
         ok = mret == r['ret']
+    if ok and not case['retry'] and not case['refused']:
+        # the model's ghost record of given-up inputs (St.dropped) against the real run: every entry names a worker
+        # that is dead in the real environment; a `handed` entry is a real successful enqueue; and when the run
+        # returned, the given-up inputs are exactly the inputs missing from the real result
+        drops = D.parse_drops(mline)
+        env = r['env']
+        for (w, i, handed) in drops:
+            if env.alive[w] or (handed and (w, i) not in r['enq']):
+                ok = False
+        if r['outcome'] == 'returned' and r['ret'] is not None and case['rr']:
+            missing = sorted(case['inputs'])
+            for x in r['ret']:
+                if x in missing:
+                    missing.remove(x)
+            if sorted(i for (_, i, _) in drops) != missing:
+                ok = False
+        if not ok:
+            name = name + ' (ghost record of given-up inputs)'
     if not ok:
         ctx.broke('correspondence', name, f'{line(case, script)}\n model={mline}\n impl ={r["outcome"]} ret={r["ret"]} enq={r["enq"]} closed={r["closed"]}')
     return ok
